@@ -147,7 +147,7 @@ def _c06() -> SimEngine:
 
 
 def _c07() -> SimEngine:
-    prof = profile(sizes=[1, 1, 2, 2, 3, None], p_embedded=0.3, p_gname=0.3,
+    prof = profile(sizes=[1, 1, 2, 2, 3, None], p_embedded=0.3, p_gname=0.3, p_aflush=0.12, p_cb=0.6, p_cb_wait=0.5,
                    embedded_ops=["cancel_group", "cancel_group", "cancel_all", "spawn", "gate"],
                    ops={"cancel_group": 5, "cancel_all": 1.2, "spawn": 9, "cancel": 0.6, "flush": 0.6, "tick": 7})
 
